@@ -14,6 +14,7 @@ from . import core
 CHECKS = {
     "C06": ("c06", "model_checking"),
     "C07": ("c07", "model_checking"),
+    "C10": ("c10", "model_checking"),
 }
 
 
